@@ -62,6 +62,70 @@ def observable_c01(tr, eng, scn):
     return fails[:5]
 
 
+ECHO_CASES = [{'view': view, 'calls': calls, 'slow': slow}
+              for view in ('same', 'transpose', 'flip')
+              for calls in ([['update', 9]], [['run_for', 2], ['run_for', 2.5], ['update', 4.5]])
+              for slow in (2.0, 3.0)]
+
+
+def check_echo(case):
+    """array-valued accumulate variables: a slow process puts the array it was handed (or a numpy view of it) into its
+    update while a fast process keeps updating that variable.  The update applied is the one RETURNED: the history is the
+    same as when the slow process returns a private copy, and the same in both listing orders (metamorphic oracle)."""
+    import numpy as np
+    from vivarium.core.engine import Engine
+    from vivarium.core.process import Process
+
+    class Drip(Process):
+        defaults = {'timestep': 1.0}
+
+        def ports_schema(self):
+            return {'pool': {'field': {'_default': np.array([1.0, 2.0, 3.0]), '_emit': True}}}
+
+        def next_update(self, timestep, states):
+            return {'pool': {'field': np.ones(3) * timestep}}
+
+    class Echo(Process):
+        defaults = {'timestep': 3.0, 'copy': False, 'view': 'same'}
+
+        def ports_schema(self):
+            return {'pool': {'field': {'_default': np.array([1.0, 2.0, 3.0]), '_emit': True},
+                             'tally': {'_default': np.zeros(3), '_emit': True}}}
+
+        def next_update(self, timestep, states):
+            v = states['pool']['field']
+            if self.parameters['view'] == 'transpose':
+                v = v.T
+            elif self.parameters['view'] == 'flip':
+                v = v[::-1]
+            return {'pool': {'tally': v.copy() if self.parameters['copy'] else v}}
+
+    def run(order, copy_):
+        procs = {'drip': Drip(), 'echo': Echo({'timestep': case['slow'], 'copy': copy_, 'view': case['view']})}
+        procs = {k: procs[k] for k in order}
+        eng = Engine(processes=procs, topology={k: {'pool': ('pool',)} for k in order}, display_info=False, progress_bar=False)
+        for kind, dt in case['calls']:
+            if kind == 'update':
+                eng.update(dt)
+            else:
+                eng.run_for(dt)
+        data = eng.emitter.get_data()
+        return {t: {k: [float(x) for x in v] for k, v in row['pool'].items()} for t, row in data.items()}
+    try:
+        ref = run(('drip', 'echo'), True)
+        alias = run(('drip', 'echo'), False)
+        other = run(('echo', 'drip'), False)
+    except Exception as e:
+        return ['engine raised %s: %s' % (type(e).__name__, str(e)[:200])]
+    fails = []
+    for name, got in (('the process returns the array it was handed', alias), ('the other listing order', other)):
+        if got != ref:
+            t = next((t for t in ref if got.get(t) != ref[t]), None)
+            fails.append('%s: at t=%s the variables are %s; with a private copy returned they are %s'
+                         % (name, t, got.get(t), ref.get(t)))
+    return fails
+
+
 def main():
     ap = argparse.ArgumentParser()
     ap.add_argument('--prop', required=True)
@@ -83,6 +147,10 @@ def main():
             same = l1 == l2 and (e1 is None) == (e2 is None)
             L.emit_result({'status': 'not-reproduced' if same else 'reproduced',
                            'failed': [] if same else ['serial and parallel runs hand over different timesteps']})
+            return
+        if 'echo' in scn:
+            fails = check_echo(scn['echo'])
+            L.emit_result({'status': 'reproduced' if fails else 'not-reproduced', 'failed': fails[:5]})
             return
         tr, eng, err = L.run_schedule(scn)
         fails = oracle(prop, tr, eng, scn, err)
@@ -167,6 +235,16 @@ def main():
                 rp = L.write_replay(a.out, prop, 'par%d' % done, scn2, fails, extra={'driver': 'bounded.sched', 'prop': prop})
                 failures.append({'id': '%s.bounded.parallel#%d: %s' % (prop, done, fails[0][:200]), 'replay': rp, 'failed': fails[:3]})
                 break
+    if prop in ('C01', 'C04') and len(failures) < 3:
+        for ci, case in enumerate(ECHO_CASES):
+            evaluations += 1
+            nontrivial.add('echo-%d' % ci)
+            fails = check_echo(case)
+            if fails:
+                rp = L.write_replay(a.out, prop, 'echo%d' % ci, {'echo': case}, fails, extra={'driver': 'bounded.sched', 'prop': prop})
+                failures.append({'id': '%s.bounded.echo#%d: %s' % (prop, ci, fails[0][:220]), 'replay': rp, 'failed': fails[:3]})
+                if len(failures) >= 3:
+                    break
     L.emit_result({'status': 'violated' if failures else 'ok', 'evaluations': evaluations,
                    'distinct_nontrivial': len(nontrivial), 'failures': failures, 'samples': samples,
                    'known_findings_hit': {k: known.count(k) for k in set(known)},
